@@ -20,8 +20,10 @@ BASE_DEFS = ["-fPIC", "-DPIC", "-D_GNU_SOURCE", "-D_XOPEN_SOURCE", "-D_DARWIN_C_
 VARIANT_FLAGS = {
     "h0": ["-O0", "-g", "-fno-omit-frame-pointer"],
     "h2": ["-O2", "-g", "-fno-omit-frame-pointer"],
+    # nonnull-attribute is off: myth_wsapi_runqueue_peek does memcpy(dst, NULL, 0) for a thread
+    # without a hint (harmless, outside every property's text; DESIGN section 7 "not findings")
     "asan": ["-O1", "-g", "-fno-omit-frame-pointer", "-fsanitize=address,undefined",
-             "-fno-sanitize-recover=all"],
+             "-fno-sanitize=nonnull-attribute", "-fno-sanitize-recover=all"],
 }
 
 ASAN_ENV = {
